@@ -47,7 +47,8 @@ func (c *Ctx) builtinFns() []*builtinFn {
 	for _, f := range pl.pkg.Syntax {
 		for _, d := range f.Decls {
 			fd, ok := d.(*ast.FuncDecl)
-			if !ok || fd.Body == nil || fd.Recv != nil || !strings.HasPrefix(fd.Name.Name, "get") || !strings.HasSuffix(fd.Name.Name, "Function") {
+			// a constructor is any package-level function that builds a callable function (whatever it is called)
+			if !ok || fd.Body == nil || fd.Recv != nil {
 				continue
 			}
 			ast.Inspect(fd.Body, func(n ast.Node) bool {
@@ -98,7 +99,12 @@ func (c *Ctx) builtinFns() []*builtinFn {
 		case *ast.SelectorExpr:
 			bf.libHandler = exprString(h)
 		case *ast.Ident:
-			bf.libHandler = h.Name
+			// a named function of this package used as the handler
+			if f := c.FnOpt("builtinfunctions." + h.Name); f != nil {
+				bf.ssaHandler = f
+			} else {
+				bf.libHandler = h.Name
+			}
 		}
 	}
 	sort.Slice(out, func(i, j int) bool { return out[i].id < out[j].id })
@@ -558,26 +564,36 @@ func c18R4(c *Ctx) {
 			}
 		}
 	})
+	// a constructor's result is registered when it flows (directly, or through a slice that is ranged over) into an
+	// update of a map under the key <that same value>.ID()
 	eachInstr(gf, func(r instrRef) {
 		mu, ok := r.I.(*ssa.MapUpdate)
 		if !ok {
 			return
 		}
-		f, isRes := results[mu.Value]
-		if !isRes {
+		kc, ok := mu.Key.(*ssa.Call)
+		if !ok || !kc.Common().IsInvoke() || kc.Common().Method.Name() != "ID" {
 			return
 		}
-		if kc, ok := mu.Key.(*ssa.Call); ok && kc.Common().IsInvoke() && kc.Common().Method.Name() == "ID" && kc.Common().Value == mu.Value {
-			ctors[f] = true
+		if kc.Common().Value != mu.Value {
+			return
+		}
+		for res, f := range results {
+			if mu.Value == res || derivesFrom(mu.Value, isValue(res)) {
+				ctors[f] = true
+			}
 		}
 	})
 	var names []string
+	byName := map[string]*ssa.Function{}
 	for f := range ctors {
-		names = append(names, f.Name())
+		nm := funcSimpleName(f)
+		names = append(names, nm)
+		byName[nm] = f
 	}
 	sort.Strings(names)
 	for _, nm := range names {
-		f := c.FnOpt("builtinfunctions." + nm)
+		f := byName[nm]
 		c.verdict(ctors[f], rule, "registered:"+nm, c.pos(f.Pos()), "registered under its own ID()", nm+" is not registered in GetFunctions under its own ID(): workflows cannot call it, or call another function under its name")
 	}
 	c.minCount(rule, "constructors", len(names), 19)
